@@ -437,8 +437,21 @@ def m_repr(ip, args, kw, st, node):
     return [(Opaque("str"), st)]
 
 
+class PyType:
+    """type(obj) of an instance of a repository class: its dynamic class id"""
+
+    def __init__(self, cid):
+        self.cid = cid
+
+
 @model("type")
 def m_type(ip, args, kw, st, node):
+    v = args[0]
+    if isinstance(v, OptV):
+        v = ip.unopt(v, st, node)
+    if isinstance(v, Sym) and is_ref_ty(v.ty):
+        from .core import dyn_class
+        return [(PyType(dyn_class(v.t)), st)]
     return [(Opaque("type"), st)]
 
 
